@@ -14,7 +14,10 @@ from .c14 import tuple_shape, random_shape
 
 def make_event(case):
     s = tuple_shape(case["shape"])
-    root = shapes.build(s, case["cls"])
+    try:
+        root = shapes.build(s, case["cls"])
+    except BaseException as e:  # noqa  (the public constructors refused a legitimate tree)
+        return {"typ": "rotate", "h": {"n": 0}, "root": 0, "node": case["node"], "h2": {"n": 0}, "ret_self": False, "exc": "constructing the tree raised " + type(e).__name__, "grew": False}
     objs = project.ObjTable()
     project.absorb(objs, [root])
     h = project.snapshot(objs, payload=False)
